@@ -265,23 +265,22 @@ Proof.
   unfold plan_ids in *. cbn [flat_map]. rewrite (IH Hr). f_equal. destruct pk; try reflexivity. discriminate.
 Qed.
 
-(* the rreqs of a call whose packets could all be built *)
-Lemma mk_rreq_id c q r : mk_rreq c q = Ok r -> r_id r = q_id q /\ r_err r = negb (q_ok q).
+(* a request that gets a packet: parsed, and its packet can be built *)
+Definition rq_ok (c : cfg) (q : preq) : bool := negb (r_err (mk_rreq c q)).
+
+Lemma mk_rreq_id c q : r_id (mk_rreq c q) = q_id q.
+Proof. unfold mk_rreq. destruct (q_parsed q) as [p|e]; [destruct (read_msg_len c p)|]; reflexivity. Qed.
+
+Lemma rq_ok_inv c q : rq_ok c q = true -> exists p m, q_parsed q = inl p /\ read_msg_len c p = Ok m.
 Proof.
-  unfold mk_rreq, q_ok. destruct (q_parsed q) as [p|e].
-  - destruct (read_msg_len c p) as [m|x]; cbn; [|discriminate]. intros H; inversion H; subst. now split.
-  - intros H; inversion H; subst. now split.
+  unfold rq_ok, mk_rreq. destruct (q_parsed q) as [p|e]; [|cbn; discriminate].
+  destruct (read_msg_len c p) as [m|x] eqn:E; cbn; intros H; [exists p, m; split; [reflexivity | exact E] | discriminate].
 Qed.
 
-Lemma rvalid_ids c : forall qs rr, map_res (mk_rreq c) qs = Ok rr ->
-  map r_id (rvalid rr) = map q_id (filter q_ok qs).
+Lemma rvalid_ids c : forall qs, map r_id (rvalid (map (mk_rreq c) qs)) = map q_id (filter (rq_ok c) qs).
 Proof.
-  unfold rvalid. induction qs as [|q qs IH]; intros rr H; cbn in H.
-  - inversion H. reflexivity.
-  - destruct (mk_rreq c q) as [r|e] eqn:Eq; cbn in H; [|discriminate].
-    destruct (map_res (mk_rreq c) qs) as [rs|e] eqn:El; cbn in H; [|discriminate]. inversion H; subst rr.
-    destruct (mk_rreq_id c q r Eq) as [Hid Herr]. cbn [filter]. rewrite Herr, Bool.negb_involutive.
-    destruct (q_ok q); cbn [map]; [f_equal; [exact Hid|] |]; apply IH; reflexivity.
+  unfold rvalid, rq_ok. induction qs as [|q qs IH]; [reflexivity|]. cbn [map filter].
+  destruct (negb (r_err (mk_rreq c q))); cbn [map]; [f_equal; [apply mk_rreq_id|] |]; exact IH.
 Qed.
 
 Lemma NoDup_map_filter {A} (f : A -> Z) (g : A -> bool) : forall l, NoDup (map f l) -> NoDup (map f (filter g l)).
@@ -294,13 +293,14 @@ Qed.
 
 (* plan partition, in the form used here: the ids bound by the read plan are exactly the ids of the
    valid requests, each once *)
-Lemma read_plan_ids c qs plan : NoDup (map q_id qs) -> read_build c qs = Ok plan ->
-  NoDup (plan_ids plan) /\ (forall i, In i (plan_ids plan) <-> In i (map q_id (filter q_ok qs)))
+Lemma read_plan_ids c qs : NoDup (map q_id qs) ->
+  let plan := read_build c qs in
+  NoDup (plan_ids plan) /\ (forall i, In i (plan_ids plan) <-> In i (map q_id (filter (rq_ok c) qs)))
   /\ forallb (fun pk => negb (is_rmw pk)) plan = true.
 Proof.
-  intros ND H. unfold read_build in H. destruct (map_res (mk_rreq c) qs) as [rr|e] eqn:E; cbn in H; [|discriminate].
-  inversion H; subst plan. pose proof (read_plan_partition (c_conn c) (c_micro800 c) rr) as PP.
-  rewrite (rvalid_ids c qs rr E) in PP. split; [|split].
+  intros ND plan. unfold plan, read_build.
+  pose proof (read_plan_partition (c_conn c) (c_micro800 c) (map (mk_rreq c) qs)) as PP.
+  rewrite (rvalid_ids c qs) in PP. split; [|split].
   - eapply Permutation_NoDup; [apply Permutation_sym, PP|]. apply NoDup_map_filter, ND.
   - intros i. split; intros Hi; [eapply Permutation_in; [exact PP | exact Hi] | eapply Permutation_in; [apply Permutation_sym, PP | exact Hi]].
   - apply read_plan_no_rmw.
@@ -311,19 +311,17 @@ Proof. unfold plan_ids. intros H. apply in_flat_map in H. exact H. Qed.
 
 (* ------------------------------------------------------------------ read(): shape, names (any peer) *)
 Lemma run_read_eq c db P reqs r : run_read c db P reqs = Ok r ->
-  exists plan, read_build c (parse_requested_tags db RwRead reqs) = Ok plan
-    /\ r = shape (map (assemble_read (send_requests (plc_of (parse_requested_tags db RwRead reqs)) P plan))
-                      (parse_requested_tags db RwRead reqs)).
-Proof.
-  unfold run_read. destruct (read_build c _) as [plan|e]; cbn; [|discriminate]. intros H; inversion H. eauto.
-Qed.
+  r = shape (map (assemble_read c (send_requests (plc_of (parse_requested_tags db RwRead reqs)) P
+                                     (read_build c (parse_requested_tags db RwRead reqs))))
+                 (parse_requested_tags db RwRead reqs)).
+Proof. unfold run_read. intros H; inversion H. reflexivity. Qed.
 
 Theorem read_result_shape c db P reqs r : run_read c db P reqs = Ok r ->
   length (results_of r) = length reqs
   /\ (length reqs = 1%nat -> exists t, r = ROne t)
   /\ (length reqs <> 1%nat -> exists l, r = RList l /\ length l = length reqs).
 Proof.
-  intros H. destruct (run_read_eq _ _ _ _ _ H) as [plan [_ ->]].
+  intros H. rewrite (run_read_eq _ _ _ _ _ H).
   set (l := map _ _). assert (HL : length l = length reqs) by (unfold l; now rewrite map_length, parse_requested_length).
   rewrite results_of_shape. split; [exact HL|]. split; intros Hn.
   - apply shape_one. congruence.
@@ -358,20 +356,21 @@ Theorem read_result_names c db P reqs r : run_read c db P reqs = Ok r ->
     (t_tag t = rq /\ truthy t = false)
     \/ (exists s, rq = ReqText s /\ t_tag t = ReqText (drop_count s)).
 Proof.
-  intros H k Hk. destruct (run_read_eq _ _ _ _ _ H) as [plan [HB ->]]. rewrite results_of_shape.
-  set (qs := parse_requested_tags db RwRead reqs) in *.
+  intros H k Hk. rewrite (run_read_eq _ _ _ _ _ H). rewrite results_of_shape.
+  set (qs := parse_requested_tags db RwRead reqs) in *. set (plan := read_build c qs).
   assert (ND : NoDup (map q_id qs)) by apply parse_requested_ids_NoDup.
   assert (HLq : length qs = length reqs) by apply parse_requested_length.
-  rewrite (nth_indep _ _ (assemble_read (send_requests (plc_of qs) P plan) dflt_q)) by (rewrite map_length; lia).
-  rewrite map_nth. unfold qs at 2. rewrite parse_requested_nth by exact Hk. fold qs.
-  set (rq := nth k reqs (ReqOther TypeError)).
-  set (q := mkPreq (Z.of_nat k) rq (parse_request_obj db RwRead rq)).
-  assert (Hq : In q qs).
-  { unfold q, rq. rewrite <- (parse_requested_nth db RwRead reqs k dflt_q Hk). apply nth_In. fold qs. lia. }
+  rewrite (nth_indep _ _ (assemble_read c (send_requests (plc_of qs) P plan) dflt_q)) by (rewrite map_length; lia).
+  rewrite map_nth.
+  pose proof (parse_requested_nth db RwRead reqs k dflt_q Hk) as Hnth. fold qs in Hnth. rewrite Hnth.
+  assert (Hq : In (nth k qs dflt_q) qs) by (apply nth_In; lia). rewrite Hnth in Hq.
+  set (rq := nth k reqs (ReqOther TypeError)) in *.
+  set (q := mkPreq (Z.of_nat k) rq (parse_request_obj db RwRead rq)) in *.
   cbn zeta. unfold assemble_read. cbn [q_parsed q_request q_id q].
   destruct (parse_request_obj db RwRead rq) as [p|e] eqn:EP; [|left; split; reflexivity].
+  destruct (read_msg_len c p) as [m|x]; [|left; split; reflexivity].
   destruct (rlookup (Z.of_nat k) _) as [t0|] eqn:EL; [|left; split; reflexivity].
-  destruct (read_plan_ids c qs plan ND HB) as [_ [_ HNR]].
+  destruct (read_plan_ids c qs ND) as [_ [_ HNR]]. fold plan in HNR.
   destruct (send_requests_named _ _ _ _ _ HNR EL) as [n [rp [Hn ->]]].
   unfold plc_of in Hn. change (Z.of_nat k) with (q_id q) in Hn. rewrite (find_q_In qs q ND Hq) in Hn.
   cbn [q_parsed q] in Hn. try rewrite EP in Hn. inversion Hn; subst n.
@@ -384,21 +383,37 @@ Proof.
   - left. exact A.
 Qed.
 
-(* a request whose parsing failed: falsy Tag carrying the request and the non-empty error text *)
-Theorem read_parse_error_falsy c db P reqs r : run_read c db P reqs = Ok r ->
-  forall k e, (k < length reqs)%nat ->
-    parse_request_obj db RwRead (nth k reqs (ReqOther TypeError)) = inr e ->
-    let t := nth k (results_of r) (exc_tag (ReqOther TypeError) TypeError) in
-    t = mkTag (nth k reqs (ReqOther TypeError)) VNone None (Some (perr_text e))
-    /\ truthy t = false /\ perr_text e <> [].
+Lemma exn_name_nonempty e : exn_name e <> [].
+Proof. destruct e as [| | | | |k]; try discriminate. destruct k; discriminate. Qed.
+
+Lemma build_err_tag_falsy rq pre e :
+  truthy (build_err_tag rq pre e) = false /\ t_tag (build_err_tag rq pre e) = rq
+  /\ exists txt, t_error (build_err_tag rq pre e) = Some txt /\ txt <> [].
 Proof.
-  intros H k e Hk HE. destruct (run_read_eq _ _ _ _ _ H) as [plan [HB ->]]. rewrite results_of_shape.
-  set (qs := parse_requested_tags db RwRead reqs) in *.
-  rewrite (nth_indep _ _ (assemble_read (send_requests (plc_of qs) P plan) dflt_q))
+  split; [reflexivity|]. split; [reflexivity|]. eexists. split; [reflexivity|].
+  intros H. apply app_eq_nil in H. destruct H as [_ H]. exact (exn_name_nonempty e H).
+Qed.
+
+(* a request whose parsing failed, or whose packet cannot be built (an index that is not a number or
+   not a UDINT, an element count that is not a UINT): a falsy Tag carrying the request and a non-empty error *)
+Theorem read_parse_error_falsy c db P reqs r : run_read c db P reqs = Ok r ->
+  forall k, (k < length reqs)%nat ->
+    let t := nth k (results_of r) (exc_tag (ReqOther TypeError) TypeError) in
+    let rq := nth k reqs (ReqOther TypeError) in
+    (forall e, parse_request_obj db RwRead rq = inr e ->
+       t = mkTag rq VNone None (Some (perr_text e)) /\ truthy t = false /\ perr_text e <> [])
+    /\ (forall p e, parse_request_obj db RwRead rq = inl p -> read_msg_len c p = Err e ->
+       t = build_err_tag rq err_build e /\ truthy t = false).
+Proof.
+  intros H k Hk. rewrite (run_read_eq _ _ _ _ _ H). rewrite results_of_shape.
+  set (qs := parse_requested_tags db RwRead reqs) in *. set (plan := read_build c qs).
+  rewrite (nth_indep _ _ (assemble_read c (send_requests (plc_of qs) P plan) dflt_q))
     by (rewrite map_length; unfold qs; rewrite parse_requested_length; lia).
-  rewrite map_nth. unfold qs at 2. rewrite parse_requested_nth by exact Hk.
-  cbn zeta. unfold assemble_read. cbn [q_parsed q_request]. rewrite HE.
-  split; [reflexivity|]. split; [reflexivity | apply perr_text_nonempty].
+  rewrite map_nth.
+  pose proof (parse_requested_nth db RwRead reqs k dflt_q Hk) as Hnth. fold qs in Hnth. rewrite Hnth.
+  cbn zeta. unfold assemble_read. cbn [q_parsed q_request]. split.
+  - intros e ->. split; [reflexivity|]. split; [reflexivity | apply perr_text_nonempty].
+  - intros p e -> ->. split; reflexivity.
 Qed.
 
 (* ------------------------------------------------------------------ read(): independent peers *)
@@ -417,31 +432,34 @@ Lemma peer_of_independent f qs : independent (peer_of f qs).
 Proof. intros ids. reflexivity. Qed.
 
 (* what read() returns for ONE request, as a function of that request only *)
-Definition read_outcome (f : parsed -> reply) (rq : request) (pr : parsed + perr) : tag :=
+Definition read_outcome (c : cfg) (f : parsed -> reply) (rq : request) (pr : parsed + perr) : tag :=
   match pr with
   | inr e => mkTag rq VNone None (Some (perr_text e))
-  | inl p => assemble_read_ok rq p (tag_of_reply (plc_tag p) (f p))
+  | inl p => match read_msg_len c p with
+             | Err e => build_err_tag rq err_build e
+             | Ok _ => assemble_read_ok rq p (tag_of_reply (plc_tag p) (f p))
+             end
   end.
 
 Definition name_of (qs : list preq) (i : Z) : text := match plc_of qs i with Some n => n | None => [] end.
 
-Lemma plan_names c qs plan : NoDup (map q_id qs) -> read_build c qs = Ok plan ->
-  forall j, In j (plan_ids plan) -> plc_of qs j = Some (name_of qs j).
+Lemma plan_names c qs : NoDup (map q_id qs) ->
+  forall j, In j (plan_ids (read_build c qs)) -> plc_of qs j = Some (name_of qs j).
 Proof.
-  intros ND HB j Hj. destruct (read_plan_ids c qs plan ND HB) as [_ [HI _]]. apply HI in Hj.
+  intros ND j Hj. destruct (read_plan_ids c qs ND) as [_ [HI _]]. apply HI in Hj.
   apply in_map_iff in Hj. destruct Hj as [q [<- Hq]]. apply filter_In in Hq. destruct Hq as [Hq Hok].
-  unfold name_of, plc_of. rewrite (find_q_In qs q ND Hq). unfold q_ok in Hok. now destruct (q_parsed q).
+  unfold name_of, plc_of. rewrite (find_q_In qs q ND Hq). destruct (rq_ok_inv c q Hok) as [p [m [-> _]]]. reflexivity.
 Qed.
 
-Lemma read_lookup c qs plan f q p : NoDup (map q_id qs) -> read_build c qs = Ok plan ->
-  In q qs -> q_parsed q = inl p ->
-  rlookup (q_id q) (send_requests (plc_of qs) (peer_of f qs) plan) = Some (tag_of_reply (plc_tag p) (f p)).
+Lemma read_lookup c qs f q p m : NoDup (map q_id qs) ->
+  In q qs -> q_parsed q = inl p -> read_msg_len c p = Ok m ->
+  rlookup (q_id q) (send_requests (plc_of qs) (peer_of f qs) (read_build c qs)) = Some (tag_of_reply (plc_tag p) (f p)).
 Proof.
-  intros ND HB Hq Hp. destruct (read_plan_ids c qs plan ND HB) as [NDP [HI HNR]].
+  intros ND Hq Hp Hm. destruct (read_plan_ids c qs ND) as [NDP [HI HNR]]. set (plan := read_build c qs) in *.
   assert (Hin : In (q_id q) (plan_ids plan)).
-  { apply HI. apply in_map. apply filter_In. split; [exact Hq|]. unfold q_ok. now rewrite Hp. }
+  { apply HI. apply in_map. apply filter_In. split; [exact Hq|]. unfold rq_ok, mk_rreq. now rewrite Hp, Hm. }
   rewrite (send_lookup (plc_of qs) (peer_of f qs) (name_of qs) plan (q_id q) (peer_of_independent f qs)
-             (plan_names c qs plan ND HB)).
+             (plan_names c qs ND)).
   - unfold name_of, plc_of. cbn [p_one peer_of]. unfold reply_of. rewrite (find_q_In qs q ND Hq), Hp. reflexivity.
   - rewrite (no_rmw_keys plan HNR). exact NDP.
   - destruct (in_plan_packet plan _ Hin) as [pk [Hpk Hi]]. exists pk. split; [exact Hpk|]. split; [|exact Hi].
@@ -453,18 +471,18 @@ Qed.
    the result of request k does not depend on the other requests of the call *)
 Theorem read_results_map c db f reqs r :
   run_read c db (peer_of f (parse_requested_tags db RwRead reqs)) reqs = Ok r ->
-  results_of r = map (fun rq => read_outcome f rq (parse_request_obj db RwRead rq)) reqs.
+  results_of r = map (fun rq => read_outcome c f rq (parse_request_obj db RwRead rq)) reqs.
 Proof.
-  intros H. destruct (run_read_eq _ _ _ _ _ H) as [plan [HB ->]]. rewrite results_of_shape.
-  set (qs := parse_requested_tags db RwRead reqs) in *.
+  intros H. rewrite (run_read_eq _ _ _ _ _ H). rewrite results_of_shape.
+  set (qs := parse_requested_tags db RwRead reqs) in *. set (plan := read_build c qs).
   assert (ND : NoDup (map q_id qs)) by apply parse_requested_ids_NoDup.
   apply (nth_ext _ _ (exc_tag (ReqOther TypeError) TypeError) (exc_tag (ReqOther TypeError) TypeError)).
   { rewrite !map_length. apply parse_requested_length. }
   intros k Hk. rewrite map_length in Hk. assert (Hk' : (k < length reqs)%nat) by (unfold qs in Hk; now rewrite parse_requested_length in Hk).
-  rewrite (nth_indep _ _ (assemble_read (send_requests (plc_of qs) (peer_of f qs) plan) dflt_q)) by (rewrite map_length; exact Hk).
+  rewrite (nth_indep _ _ (assemble_read c (send_requests (plc_of qs) (peer_of f qs) plan) dflt_q)) by (rewrite map_length; exact Hk).
   rewrite map_nth.
-  rewrite (nth_indep (map _ reqs) _ ((fun rq => read_outcome f rq (parse_request_obj db RwRead rq)) (ReqOther TypeError))) by (rewrite map_length; exact Hk').
-  rewrite (map_nth (fun rq => read_outcome f rq (parse_request_obj db RwRead rq))).
+  rewrite (nth_indep (map _ reqs) _ ((fun rq => read_outcome c f rq (parse_request_obj db RwRead rq)) (ReqOther TypeError))) by (rewrite map_length; exact Hk').
+  rewrite (map_nth (fun rq => read_outcome c f rq (parse_request_obj db RwRead rq))).
   assert (Hq : In (nth k qs dflt_q) qs) by (apply nth_In; exact Hk).
   pose proof (parse_requested_nth db RwRead reqs k dflt_q Hk') as Hnth. fold qs in Hnth.
   rewrite Hnth in Hq |- *.
@@ -472,8 +490,8 @@ Proof.
   set (q := mkPreq (Z.of_nat k) rq (parse_request_obj db RwRead rq)) in *.
   unfold assemble_read, read_outcome. cbn [q_parsed q_request q].
   destruct (parse_request_obj db RwRead rq) as [p|e] eqn:EP; [|reflexivity].
-  change (q_id q) with (q_id q).
-  rewrite (read_lookup c qs plan f q p ND HB Hq); reflexivity.
+  destruct (read_msg_len c p) as [m|x] eqn:EM; [|reflexivity].
+  unfold plan. rewrite (read_lookup c qs f q p m ND Hq); [reflexivity | reflexivity | exact EM].
 Qed.
 
 (* isolation: the outcome of request k in a call = its outcome when it is issued alone *)
@@ -486,37 +504,25 @@ Proof.
   intros Hk H H1. pose proof (read_results_map _ _ _ _ _ H) as E. pose proof (read_results_map _ _ _ _ _ H1) as E1.
   destruct (read_result_shape _ _ _ _ _ H1) as [_ [S1 _]]. destruct (S1 eq_refl) as [t ->].
   cbn [results_of map] in E1. inversion E1 as [Ht]. f_equal. rewrite E.
-  rewrite (nth_indep _ _ ((fun rq => read_outcome f rq (parse_request_obj db RwRead rq)) (ReqOther TypeError))) by (rewrite map_length; exact Hk).
-  now rewrite (map_nth (fun rq => read_outcome f rq (parse_request_obj db RwRead rq))).
+  rewrite (nth_indep _ _ ((fun rq => read_outcome c f rq (parse_request_obj db RwRead rq)) (ReqOther TypeError))) by (rewrite map_length; exact Hk).
+  now rewrite (map_nth (fun rq => read_outcome c f rq (parse_request_obj db RwRead rq))).
 Qed.
 
 (* a controller error status (any reply that is not valid) for the service of request k:
    a falsy Tag carrying the user tag and the controller's error text *)
-Theorem read_controller_error_falsy c db f reqs r k p :
+Theorem read_controller_error_falsy c db f reqs r k p m :
   (k < length reqs)%nat ->
   run_read c db (peer_of f (parse_requested_tags db RwRead reqs)) reqs = Ok r ->
-  parse_request_obj db RwRead (nth k reqs (ReqOther TypeError)) = inl p -> rp_ok (f p) = false ->
+  parse_request_obj db RwRead (nth k reqs (ReqOther TypeError)) = inl p -> read_msg_len c p = Ok m -> rp_ok (f p) = false ->
   nth k (results_of r) (exc_tag (ReqOther TypeError) TypeError)
   = mkTag (ReqText (user_tag p)) VNone None (Some (rp_error (f p))).
 Proof.
-  intros Hk H HP HF. rewrite (read_results_map _ _ _ _ _ H).
-  rewrite (nth_indep _ _ ((fun rq => read_outcome f rq (parse_request_obj db RwRead rq)) (ReqOther TypeError))) by (rewrite map_length; exact Hk).
-  rewrite (map_nth (fun rq => read_outcome f rq (parse_request_obj db RwRead rq))). rewrite HP.
-  unfold read_outcome, assemble_read_ok, tag_of_reply. rewrite HF. reflexivity.
+  intros Hk H HP HM HF. rewrite (read_results_map _ _ _ _ _ H).
+  rewrite (nth_indep _ _ ((fun rq => read_outcome c f rq (parse_request_obj db RwRead rq)) (ReqOther TypeError))) by (rewrite map_length; exact Hk).
+  rewrite (map_nth (fun rq => read_outcome c f rq (parse_request_obj db RwRead rq))). rewrite HP.
+  unfold read_outcome. rewrite HM. unfold assemble_read_ok, tag_of_reply. rewrite HF. reflexivity.
 Qed.
 
-(* ------------------------------------------------------------------ read(): exceptions *)
-Definition read_guard (c : cfg) (db : tagdb) (reqs : list request) : bool :=
-  negb (forallb (fun q => res_ok (mk_rreq c q)) (parse_requested_tags db RwRead reqs)).
-
-Theorem read_no_exception c db P reqs : read_guard c db reqs = false -> exists r, run_read c db P reqs = Ok r.
-Proof.
-  unfold read_guard, run_read, read_build. intros H. apply Bool.negb_false_iff in H.
-  destruct (map_res_total _ _ H) as [rr ->]. cbn. eauto.
-Qed.
-
-Theorem read_exception_iff_guard c db P reqs : read_guard c db reqs = true -> exists e, run_read c db P reqs = Err e.
-Proof.
-  unfold read_guard, run_read, read_build. intros H. apply Bool.negb_true_iff in H.
-  destruct (map_res_fails _ _ H) as [e ->]. cbn. eauto.
-Qed.
+(* ------------------------------------------------------------------ read(): no exception, for every request list *)
+Theorem read_no_exception c db P reqs : exists r, run_read c db P reqs = Ok r.
+Proof. unfold run_read. eauto. Qed.
